@@ -373,7 +373,11 @@ class BacktestingDispatcher(EventDispatcher):
     async def _dispatch_events(self, dt: datetime.datetime):
         # Pop events, push them into the task pool, and wait those to finish executing.
         self._last_dt = dt
-        for source, evnt in self._event_mux.pop_while(dt):
+        # Pop all the events before pushing any of them into the task pool. Otherwise, if the pool is full, handlers
+        # get to run while we're still popping and the events they push would be dispatched ahead of events from other
+        # sources that have the same datetime.
+        events = list(self._event_mux.pop_while(dt))
+        for source, evnt in events:
             await self._handlers_task_pool.push(
                 self._dispatch_event(EventDispatch(event=evnt, handlers=self._event_handlers.get(source, [])))
             )
